@@ -201,3 +201,260 @@ def hint_writers(ctx, rule, crate, tag=""):
             ctx.ob(rule + tag, fn, "writes:hint_dependencies_available", fn == CACHE + "get_or_cache_candidates",
                    where_call(b, i), "hint bits are written only when a package's candidates arrive")
     ctx.floor(rule + tag, "writer of hint bits", n, 1)
+
+USIZE_MAX = 18446744073709551615
+
+def guard_locals(b):
+    return [i for i, l in enumerate(b.locals) if l["ty"].startswith("std::cell::Ref<") or l["ty"].startswith("std::cell::RefMut<")]
+
+
+
+def live_blocks(b, local):
+    """Blocks in which `local` may be live: reachable from a definition without passing its drop /
+    StorageDead (normal + resume edges)."""
+    defs = [bb for bb, idx, r in b.defs_of(local)]
+    kills = set()
+    for i, t in b.terms("drop"):
+        if t["p"]["l"] == local and "p" not in t["p"]:
+            kills.add(i)
+    for i, blk in enumerate(b.blocks):
+        for s in blk["stmts"]:
+            if s["k"] == "dead" and s["l"] == local:
+                kills.add(i)
+    # moved out: `_x = move _local` also ends the guard's life in this local
+    out = set()
+    for d in defs:
+        out |= b.reachable_after(d, avoid=kills)
+        t = b.blocks[d]["term"]
+    return out, kills
+
+
+
+def guards(ctx, crate, tag, rule="no-guard-across-await"):
+    cos = [b for b in crate.bodies if b.coroutine]
+    ctx.floor(rule + tag, "coroutines with suspension points",
+              sum(1 for b in cos if b.yields()), 12)
+    n = 0
+    for b in cos:
+        ys = set(b.yields())
+        if not ys:
+            continue
+        ordinal = {}
+        for l in guard_locals(b):
+            n += 1
+            fld = _guard_field(b, l)
+            ordinal[fld] = ordinal.get(fld, 0) + 1
+            live, kills = live_blocks(b, l)
+            crossing = sorted(live & ys)
+            ctx.ob(rule + tag, b.key, "guard:%s#%d" % (fld, ordinal[fld]), not crossing,
+                   b.loc(crossing[0]) if crossing else b.loc(),
+                   "RefCell guard dropped before every suspension point" if not crossing else
+                   "RefCell guard %s is live across the .await at %s" % (b.local_ty(l)[:60], b.loc(crossing[0])))
+    ctx.count("guard_locals", n)
+    ctx.floor(rule + tag, "RefCell guard locals in coroutines", n, 4)
+
+
+
+def _guard_field(b, l):
+    for bb, idx, r in b.defs_of(l):
+        if idx == "term" and r["args"]:
+            d, _ = q.origin_thru(b, r["args"][0])
+            fs = q.fields_of(d)
+            if fs:
+                return fs[-1][1]
+    return "?"
+
+
+
+def hand_off(ctx, crate, crs, tag, rule="hand-off"):
+    b = body_by_key(crate, CACHE + "get_or_cache_candidates", coroutine=True)
+    if b is None:
+        ctx.ob(rule + tag, CACHE + "get_or_cache_candidates", "anchor", False, "", "async body not found")
+        return
+    F = "package_name_to_candidates_in_flight"
+    regs = q.calls_on_field(b, "std::collections::HashMap::insert", CACHE_ADT, F)
+    rems = q.calls_on_field(b, "std::collections::HashMap::remove", CACHE_ADT, F)
+    pubs = q.calls_on_field(b, INSERTS, CACHE_ADT, "package_name_to_candidates")
+    nots = b.calls_to("event_listener::Event::notify")
+    ctx.floor(rule + tag, "in-flight registration", len(regs), 1)
+    for ri, rt in regs:
+        for what, sites in (("result-insert", pubs), ("marker-removal", rems), ("notify", nots)):
+            ok = bool(sites) and postdominated_modulo_errors(b, ri, [i for i, _ in sites])
+            ctx.ob(rule + tag, b.key, "after-register:%s" % what, ok, where_call(b, ri),
+                   "%s happens on every completing path after the in-flight registration" % what)
+        # same key for registration, publication and removal
+        rk = key_desc(b, rt["args"][1])
+        for what, sites in (("result-insert", pubs), ("marker-removal", rems)):
+            for i, t in sites:
+                ctx.ob(rule + tag, b.key, "same-key:%s" % what, q.same_origin(rk, key_desc(b, t["args"][1])),
+                       where_call(b, i), "uses the package name that was registered")
+    # no suspension between publishing the result and waking the listeners
+    for pi, _ in pubs:
+        for ni, _ in nots:
+            mid = (q.between(b, [pi], ni) | q.between(b, [ni], pi))
+            ys = [y for y in mid if b.blocks[y]["term"]["k"] == "yield"]
+            ctx.ob(rule + tag, b.key, "no-yield-between-publish-and-notify", not ys, where_call(b, ni),
+                   "listeners are woken in the same poll that published the result")
+    for ni, nt in nots:
+        a = nt["args"][1]
+        ctx.ob(rule + tag, b.key, "notify-all", a.get("k") == "const" and a.get("v") == USIZE_MAX, where_call(b, ni),
+               "notify(usize::MAX) wakes every listener (argument: %s)" % a.get("v"))
+        # the notified event is the one removed from the in-flight map
+        d, chain = q.origin_thru(b, nt["args"][0], transparent=q.TRANSPARENT | {"std::option::Option::expect", "std::option::Option::unwrap"})
+        ctx.ob(rule + tag, b.key, "notify-removed-event", d["k"] == "call" and any(d["bb"] == i for i, _ in rems),
+               where_call(b, ni), "the event notified is the one taken out of the in-flight map")
+    # listener side: awaits listen() of the event found in the map, then reads the result map with the same key
+    lis = b.calls_to("event_listener::Event::listen")
+    ctx.floor(rule + tag, "listener branch", len(lis), 1)
+    lookups = q.calls_on_field(b, LOOKUPS, CACHE_ADT, "package_name_to_candidates")
+    for li, lt in lis:
+        ys = [y for y in b.yields() if y in b.reachable_after(li)]
+        awaited = False
+        for y in ys:
+            d, _ = awaited_origin(b, y)
+            if d is not None and d["k"] == "call" and d["bb"] == li:
+                awaited = True
+                after = [i for i, t in lookups if i in b.reachable([b.blocks[y]["term"]["resume"]])]
+                ctx.ob(rule + tag, b.key, "listener-rereads-result", bool(after), b.loc(y),
+                       "after the event fires the listener reads the result map again")
+        ctx.ob(rule + tag, b.key, "listener-awaits-event", awaited, where_call(b, li),
+               "the listener future is awaited (not dropped)")
+
+
+
+def cancel_safety(ctx, crate, crs, tag, rule="cancel-safety"):
+    """Acquire = HashMap::insert into a RefCell<HashMap> field of SolverCache inside a coroutine;
+    release = HashMap::remove on the same field."""
+    cache = crate.adts.get(CACHE_ADT)
+    fields = [f["name"] for f in cache["variants"][0]["fields"]
+              if f["ty"].startswith("std::cell::RefCell<std::collections::HashMap<")] if cache else []
+    ctx.floor(rule + tag, "RefCell<HashMap> fields of SolverCache", len(fields), 1)
+    n_acq = 0
+    for b in crate.bodies:
+        if not b.coroutine or not b.key.startswith("resolvo::solver::"):
+            continue
+        for F in fields:
+            acqs = q.calls_on_field(b, "std::collections::HashMap::insert", CACHE_ADT, F)
+            rels = [i for i, _ in q.calls_on_field(b, "std::collections::HashMap::remove", CACHE_ADT, F)]
+            for ai, at in acqs:
+                n_acq += 1
+                held = b.reachable_after(ai, avoid=rels)
+                ys = sorted(y for y in b.yields() if y in held)
+                guards = drop_guards(crate, b, F)
+                # early exits (return / `?`) while the entry is held and no guard is live yet
+                leaks = [r for r in b.return_blocks() if r in held and
+                         not any(guard_live_at(b, gl, gdef, r, ai, via=held) for gl, gdef in guards)]
+                ctx.ob(rule + tag, b.key, "acquire:%s:all-exits-release" % F, not leaks, where_call(b, ai),
+                       "every return path after the registration removes the entry (or a live guard does)" if not leaks else
+                       "a return path after the registration leaves the entry behind (exit at %s)" % b.loc(leaks[0]))
+                if not ys:
+                    ctx.ob(rule + tag, b.key, "acquire:%s" % F, True, where_call(b, ai),
+                           "no suspension point while the entry is held")
+                    continue
+                uncovered = []
+                for y in ys:
+                    if not any(guard_live_at(b, gl, gdef, y, ai) for gl, gdef in guards):
+                        uncovered.append(y)
+                ctx.ob(rule + tag, b.key, "acquire:%s" % F, not uncovered, where_call(b, ai),
+                       ("entry held across %d suspension point(s); a guard whose Drop removes it is live at each" % len(ys))
+                       if not uncovered else
+                       "entry is held across the .await at %s and released only by code after it: a dropped "
+                       "(cancelled) future leaves the entry behind" % b.loc(uncovered[0]))
+    ctx.floor(rule + tag, "manual acquire sites in SolverCache coroutines", n_acq, 1)
+
+
+
+def drop_guards(crate, b, field):
+    """Locals of b whose type is a crate ADT with a Drop impl that removes from `field`
+    (the guard holds a reference to the RefCell; matched by type of that reference's origin)."""
+    out = []
+    for li, l in enumerate(b.locals):
+        adt = q.adt_of_type(l["ty"])
+        if adt not in crate.adts:
+            continue
+        db = None
+        for c in crate.bodies:
+            if c.d.get("impl_trait") == "std::ops::Drop" and c.d.get("impl_adt") == adt:
+                db = c
+        if db is None:
+            continue
+        removes = db.calls_to("std::collections::HashMap::remove")
+        if not removes:
+            continue
+        # the guard aggregate in b must be built from a reference to CACHE.field
+        for i, j, s in b.assigns():
+            if s["p"]["l"] == li and "p" not in s["p"] and s["r"]["k"] == "agg" and s["r"].get("adt") == adt:
+                for o in s["r"]["ops"]:
+                    d, _ = q.origin_thru(b, o)
+                    if q.mentions_field(d, CACHE_ADT, field):
+                        # does the Drop impl also notify waiters?
+                        out.append((li, i))
+    return out
+
+
+
+def guard_live_at(b, gl, gdef, y, acquire_bb, via=None):
+    """Guard local gl (defined in block gdef) is live at block y: every path from the acquire to y (inside
+    `via`, the region where the entry is held) passes gdef, and no drop/move of gl lies between gdef and y."""
+    if via is not None:
+        # y must be unreachable from the acquire (within the held region) when gdef is removed
+        if y in b.reachable_after(acquire_bb, avoid=(set(range(b.n)) - set(via)) | {gdef}):
+            return False
+    elif not b.dominates(gdef, y):
+        return False
+    kills = set()
+    for i, t in b.terms("drop"):
+        if t["p"]["l"] == gl and "p" not in t["p"]:
+            kills.add(i)
+    for i, j, s in b.assigns():
+        r = s["r"]
+        if r["k"] == "use" and r["o"].get("k") == "move" and r["o"]["p"]["l"] == gl:
+            kills.add(i)
+    for i, t in b.calls():
+        for a in t["args"]:
+            if a.get("k") == "move" and a["p"]["l"] == gl and "p" not in a["p"]:
+                kills.add(i)      # e.g. mem::forget(guard) / drop(guard)
+    live = b.reachable_after(gdef, avoid=kills) | {gdef}
+    if y not in live:
+        return False
+    # no yield between the acquire and the guard's creation (the entry would be unprotected there)
+    mid = q.between(b, [acquire_bb], gdef)
+    return not any(b.blocks[m]["term"]["k"] == "yield" for m in mid)
+
+
+
+
+def drain_complete(ctx, rule, crate, crs, tag=""):
+    """Encoder::encode returns Ok only after pending_futures reported exhaustion (`next()` gave None):
+    every future that was queued (and whose solvable/package was marked as encoded) has been processed."""
+    b = body_by_key(crate, ENC + "encode", coroutine=True)
+    if b is None:
+        ctx.ob(rule + tag, ENC + "encode", "anchor", False, "", "async body not found")
+        return
+    cs = q.conds(b, crs)
+    none_edges = []
+    for c in cs:
+        if c.kind != "discr" or c.adt != "std::option::Option" or not c.src:
+            continue
+        # the tested Option is the Ready payload of awaiting StreamExt::next(pending_futures)
+        d, chain = q.origin_thru(b, {"k": "copy", "p": c.src_place}, transparent=set())
+        if d["k"] == "call" and d["t"].get("f") and "futures::Future::poll" in callee_keys(d["t"]["f"]) or \
+                any(isinstance(e, dict) and e.get("as") == "Ready" for e in d.get("proj", [])):
+            nt = c.target("None")
+            if nt is not None:
+                none_edges.append((c.bb, nt))
+    oks = []
+    for i, j, s in b.assigns():
+        if s["p"]["l"] == 0 and s["r"]["k"] == "agg" and s["r"].get("variant") == "Ok":
+            oks.append((i, s))
+    ctx.floor(rule + tag, "Ok(..) return of encode", len(oks), 1)
+    for i, s in oks:
+        ok = bool(none_edges) and q.only_via_edges(b, none_edges, i)
+        ctx.ob(rule + tag, b.key, "ok-only-after-queue-exhausted", ok, "%s:%s" % (b.file, s["line"]),
+               "encode reports success only after pending_futures.next() returned None" if ok else
+               "encode can return Ok while queued futures are still pending: their clauses are never added")
+    # and the returned value is the accumulated conflicting_clauses
+    for i, s in oks:
+        d, _ = q.origin_thru(b, s["r"]["ops"][0])
+        ctx.ob(rule + tag, b.key, "returns-conflicting-clauses", q.mentions_field(d, ENCODER_ADT, "conflicting_clauses"),
+               "%s:%s" % (b.file, s["line"]), "encode hands the conflicting clause list to run_sat")
